@@ -43,6 +43,107 @@ def count_width(r, ty, vec):
     return "none"
 
 
+def eval_cond(c, assign):
+    """evaluate a condition over is_some(self.X) atoms under a presence assignment; None if undetermined"""
+    import re as _re
+    op = c.op
+    if op == "true":
+        return True
+    if op == "false":
+        return False
+    if op == "not":
+        v = eval_cond(c.args[0], assign)
+        return None if v is None else (not v)
+    if op in ("and", "or"):
+        vs = [eval_cond(a, assign) for a in c.args]
+        if op == "and":
+            if any(v is False for v in vs):
+                return False
+            return True if all(v is True for v in vs) else None
+        if any(v is True for v in vs):
+            return True
+        return False if all(v is False for v in vs) else None
+    if op == "opaque":
+        m = _re.match(r"is_some\(self\.(\w+)\)", str(c.args[0]))
+        if m and m.group(1) in assign:
+            return assign[m.group(1)]
+    return None
+
+
+def flag_consistency(rep, name, ty, fn, ev, r, stats):
+    """On every Ok path the flag bit written must agree with the presence of EVERY optional field using it."""
+    import itertools
+    from .. import rslayout
+    if r is None or ty not in r.decls:
+        return
+    flags = {}
+    for n_ in [ty] + r.parent_chain(ty):
+        for f in r.inlined(n_):
+            if f.cond is not None:
+                flags.setdefault((n_, f.cond[0]), []).append((f.name, f.cond[1]))
+    if not flags:
+        return
+    checks = [e for e in rslayout.walk(ev.events) if e.kind == "check" and e.ret is not None]
+    # only in the function that encodes the declaring type's own fields: items align 1:1 with the reference layout
+    own_fn = "encode_partial" if r.decls[ty].parent else "encode"
+    if fn != own_fn:
+        return
+    enc = [x for x in rslayout.encoder_items(ev) if x["k"] != "fill"]
+    try:
+        ref_items = [x for x in r.layout(ty) if x["k"] not in ("checksum_start",)]
+    except Exception:
+        return
+    for (decl, flag), opts in flags.items():
+        if decl != ty:
+            continue
+        fields = [o[0] for o in opts]
+        atom = None
+        for idx, it in enumerate(ref_items):
+            if it["k"] != "chunk":
+                continue
+            for bf in it["fields"]:
+                if bf["k"] == "flag" and bf["name"] == flag and idx < len(enc) and enc[idx]["k"] == "chunk":
+                    key = enc[idx]["keys"][bf["shift"]] if bf["shift"] < len(enc[idx]["keys"]) else None
+                    a = enc[idx]["env"].atoms.get(key) if key else None
+                    if a is not None and a.op == "ite" and a.args[1].is_const() and a.args[2].is_const():
+                        atom = a
+        stats["flags"] = stats.get("flags", 0) + 1
+        if atom is None:
+            rep.add(f"C05|rust|{fn}|flag-not-derived", f"flag `{flag}` of {ty} is not derived from the presence of {fields}",
+                    f"{name}:{ty}::{fn}")
+            continue
+        for combo in itertools.product([False, True], repeat=len(fields)):
+            assign = dict(zip(fields, combo))
+            rejected = False
+            for c in checks:
+                v = eval_cond(c.cond, assign)
+                if v is True:
+                    rejected = True
+                    break
+            if rejected:
+                continue
+            cv = eval_cond(atom.args[0], assign)
+            if cv is None:
+                continue
+            val = atom.args[1].cval() if cv else atom.args[2].cval()
+            for (fname, v) in opts:
+                stats["flag_cells"] = stats.get("flag_cells", 0) + 1
+                if assign[fname] != (val == v):
+                    rep.add(f"C05|rust|{fn}|flag-inconsistent", f"{ty}: with presence {assign} encode succeeds and writes flag "
+                            f"`{flag}` = {val}, but `{fname}` is {'present' if assign[fname] else 'absent'} and is present iff "
+                            f"{flag} == {v}: no InconsistentConditionValue error", f"{name}:{ty}::{fn}")
+                    return
+
+
+def iter_ite(e):
+    from ..sym import E as _E
+    if e.op == "ite":
+        yield e
+    for a in e.args:
+        if isinstance(a, _E):
+            yield from iter_ite(a)
+
+
 def total_written(ev, m, ty, partial_poly=None):
     p = {}
     for w in ev.written:
@@ -63,6 +164,7 @@ def total_written(ev, m, ty, partial_poly=None):
 def run(rep, tier, seed):
     g = rc.gen(tier, seed)
     n_fn = n_obl = n_ok = n_writes = n_len = 0
+    flagstats = {}
     kinds = {}
     samples = []
     subjects = rc.rust_subjects(g)
@@ -106,6 +208,7 @@ def run(rep, tier, seed):
                                     f"{name}.rs:{e.line} {ty}::{fn}")
                         else:
                             n_ok += 1
+                flag_consistency(rep, name, ty, fn, ev, r, flagstats)
                 if len(samples) < 5 and ev.obls:
                     samples.append({"description": name, "fn": f"{ty}::{fn}",
                                     "obligations": [f"{o.kind}: {o.what} -> {'discharged' if o.ok else 'FAILED'}"
@@ -149,6 +252,7 @@ def run(rep, tier, seed):
                        "count of the Ok path is compared with encoded_len() as polynomials.",
         "descriptions": len(subjects), "functions": n_fn, "writes": n_writes, "encoded_len_comparisons": n_len,
         "obligations": n_obl, "discharged": n_ok, "obligation_kinds": kinds, "samples": samples,
+        "flags_checked": flagstats.get("flags", 0), "flag_presence_cells": flagstats.get("flag_cells", 0),
         "evaluations": n_fn, "distinct_nontrivial": n_obl,
     })
     rep.assumptions += [
